@@ -224,8 +224,20 @@ def scan_rules(ctx, P):
             ctx.violation(ob, "R6.argmin", q, unparse(cst)[:100], "candidates-not-the-minimisers",
                           "the candidates are selected by a condition on `%s` that is not equality with the key: elements that do not attain the minimum "
                           "(a later date, a longer queue) can be chosen" % bname, loc(cst))
+    # the built-in: `min(L, key=lambda v: KEY)` over a list of candidates is the arg-min with the first of equal candidates kept, by definition; accepted where
+    # the table asks for no particular collection or filter (the choice among a node's own candidate events)
+    builtin = {}
+    for ci, fn in P.all_functions():
+        for x in ast.walk(fn):
+            if isinstance(x, ast.Call) and isinstance(x.func, ast.Name) and x.func.id == "min" and len(x.args) == 1 and len(x.keywords) == 1 and x.keywords[0].arg == "key" \
+                    and isinstance(x.keywords[0].value, ast.Lambda) and isinstance(x.args[0], (ast.Name, ast.ListComp)):
+                for q in ctx._anchor_wheres(P.func_name(fn)):
+                    spec = SCAN_TABLE.get(q)
+                    if spec is not None and spec[0] is None and not spec[1]:
+                        builtin.setdefault(q, []).append(x)
+                        ob.ok("%s:min(key)" % q, "%s: %s" % (q, unparse(x)[:80]))
     for q, spec in SCAN_TABLE.items():
-        if q not in found and q not in minfilters and q not in loose:
+        if q not in found and q not in minfilters and q not in loose and q not in builtin:
             ctx.unrecognised("SCAN: no arg-min scan recognised in %s" % q)
     for q, lst in sorted(minfilters.items()):
         spec = SCAN_TABLE.get(q)
@@ -297,7 +309,7 @@ def scan_rules(ctx, P):
                                   "the scan in %s skips candidates under `%s`, which is not one of its stated filters: the true minimum may be overlooked" % (q, guards.show(a_)), loc(test))
     # consumers
     consumer_checks(ctx, ob, P)
-    ctx.floor("arg-min scans", sum(len(v) for v in found.values()) + sum(len(v) for v in minfilters.values()), 9)
+    ctx.floor("arg-min scans", sum(len(v) for v in found.values()) + sum(len(v) for v in minfilters.values()) + sum(len(v) for v in builtin.values()), 9)
 
 
 def _arm_assigned(sc):
